@@ -28,12 +28,16 @@ ROOTS = {
         "Duration": "crux_time::Duration",
         "TimerId": "crux_time::TimerId",
     },
+    # KeyValueOperation is left to the wire harnesses of C17 (hand-written reference encoder): every one of its
+    # schema-generated round-trip harnesses, even a single shape with empty strings, ran out of memory
+    # (24 GB) or of solver memory after 8-10 min, while KeyValueResult's take 25-75 s per group of four
     "kv": {
-        "KeyValueOperation": "crux_kv::KeyValueOperation",
         "KeyValueResult": "crux_kv::KeyValueResult",
     },
 }
-MAX_SEQ = 1  # bound on sequence / string / byte-string lengths in generated encodings
+MAX_SEQ = 1  # bound on sequence / byte-string lengths in generated encodings
+MAX_STR = 0  # bound on string lengths: decoding a non-empty string goes through core::str::from_utf8, whose
+             # validation loop (pointer-alignment fast path) gets no verdict in 10 min for one 1-byte string
 GROUP = 4  # shapes per proof harness
 
 PRIM = {"U8": ("u8", 1), "U16": ("u16", 2), "U32": ("u32", 4), "U64": ("u64", 8), "I32": ("i32", 4), "I64": ("i64", 8)}
@@ -83,7 +87,7 @@ def plans(fmt, reg, depth=0):
             return [[]]
         if fmt in ("STR", "BYTES"):
             atom = ("strbyte",) if fmt == "STR" else ("byte",)
-            return [[("lit", n.to_bytes(8, "little"), f"{fmt.lower()}[{n}]")] + [atom] * n for n in range(MAX_SEQ + 1)]
+            return [[("lit", n.to_bytes(8, "little"), f"{fmt.lower()}[{n}]")] + [atom] * n for n in range((MAX_STR if fmt == "STR" else MAX_SEQ) + 1)]
         raise Unsupported(f"format {fmt}")
     (k, v), = fmt.items()
     if k == "TYPENAME":
@@ -209,7 +213,7 @@ def generate(which=("time", "kv")):
                     L.append("    match v {")
                     for k, si in enumerate(grp):
                         L.append(f"        {k} => shape_{fn}_{si}(),")
-                    if kind == "ENUM" and gi == 0:
+                    if kind == "ENUM" and gi == 0 and proto == "time":
                         nvar = summary[name]["variants"]
                         L.append(f"        _ if v >= {max(nvar, len(grp))} => {{")
                         L.append("            // an index the schema does not define must be rejected, not taken for some variant")
@@ -225,7 +229,23 @@ def generate(which=("time", "kv")):
                     L.append(f"    shape_{fn}_{grp[0]}();")
                 L.append("}")
                 harnesses.append({"name": hname, "root": name, "proto": proto, "shapes": [describe(shapes[si]) or "fixed layout" for si in grp],
-                                  "undefined_indices": kind == "ENUM" and gi == 0})
+                                  "undefined_indices": kind == "ENUM" and gi == 0 and proto == "time"})
+            if kind == "ENUM" and proto != "time":
+                # undefined variant indices of the root enum, in a harness of its own (the error path is the expensive part)
+                nvar = summary[name]["variants"]
+                hname = f"c10_{proto}_{fn}_undefined"
+                L.append("#[cfg_attr(kani, kani::proof, kani::unwind(50))]")
+                L.append("#[cfg_attr(kani, kani::stub(core::fmt::write, crate::fmt_write_nop))]")
+                L.append(f"pub fn {hname}() {{")
+                L.append("    let v = nd::any_u32();")
+                L.append(f"    nd::assume(v >= {nvar});")
+                L.append("    let mut w = W::new();")
+                L.append("    w.put(&v.to_le_bytes());")
+                L.append("    w.put(&[0u8; 24]);")
+                L.append(f"    rejects::<{path}>(&w);")
+                L.append(f"    crate::nd_cover!(true, \"{name}: undefined variant index rejected\");")
+                L.append("}")
+                harnesses.append({"name": hname, "root": name, "proto": proto, "shapes": ["undefined variant indices"], "undefined_indices": True})
             L.append("")
     L.append("#[cfg(not(kani))]")
     L.append("pub const GENERATED_HARNESSES: &[(&str, fn())] = &[")
